@@ -637,8 +637,8 @@ func PSIndexHasValidLCP(txtAPI hwapi.LowLevelHardwareInterfaces, p *PreSet) (boo
 		if pol2.HashAlg != p.LCPHash {
 			return false, fmt.Errorf("HashAlg has invalid value"), nil
 		}
-		if pol2.PolicyType != tools.LCPPolicyTypeAny && pol1.PolicyType != tools.LCPPolicyTypeList {
-			return false, fmt.Errorf("PolicyType is invalid. Have: %d - Want: %d or %d", pol1.PolicyType, tools.LCPPolicyTypeAny, tools.LCPPolicyTypeList), nil
+		if pol2.PolicyType != tools.LCPPolicyTypeAny && pol2.PolicyType != tools.LCPPolicyTypeList {
+			return false, fmt.Errorf("PolicyType is invalid. Have: %d - Want: %d or %d", pol2.PolicyType, tools.LCPPolicyTypeAny, tools.LCPPolicyTypeList), nil
 		}
 		if pol2.LcpHashAlgMask == 0 {
 			return false, fmt.Errorf("LcpHashAlgMask is invalid. Must be greater than 0"), nil
@@ -764,8 +764,8 @@ func POIndexHasValidLCP(txtAPI hwapi.LowLevelHardwareInterfaces, p *PreSet) (boo
 		if pol2.HashAlg != p.LCPHash {
 			return false, fmt.Errorf("HashAlg has invalid value"), nil
 		}
-		if pol2.PolicyType != tools.LCPPolicyTypeAny && pol1.PolicyType != tools.LCPPolicyTypeList {
-			return false, fmt.Errorf("PolicyType is invalid. Have: %d - Want: %d or %d", pol1.PolicyType, tools.LCPPolicyTypeAny, tools.LCPPolicyTypeList), nil
+		if pol2.PolicyType != tools.LCPPolicyTypeAny && pol2.PolicyType != tools.LCPPolicyTypeList {
+			return false, fmt.Errorf("PolicyType is invalid. Have: %d - Want: %d or %d", pol2.PolicyType, tools.LCPPolicyTypeAny, tools.LCPPolicyTypeList), nil
 		}
 		if pol2.LcpHashAlgMask == 0 {
 			return false, fmt.Errorf("LcpHashAlgMask is invalid. Must be greater than 0"), nil
